@@ -100,6 +100,11 @@ CASES = [
   dict(name='module_redefines_import_alias',
        files={'r/base/v.l': 'Value(3);\n', 'r/mid/m.l': 'import base.v.Value as V;\nV(10);\nMid(x) :- V(x);\n'},
        main='import mid.m.Mid;\nQ(x) :- Mid(x);\n', roots='r', error='import'),
+  # a module with a predicate whose name is the module's prefix + the name of another of its predicates
+  dict(name='module_defines_prefixed_twin',
+       files={'r/lib/util.l': 'Item(1);\nUtil_Item(2);\nBoth(x) :- Item(x) | Util_Item(x);\nOnlyTwin(x) :- Util_Item(x);\n'},
+       main='import lib.util.Both;\nimport lib.util.OnlyTwin;\nQ(x) :- Both(x);\nQ2(x) :- OnlyTwin(x);\n', roots='r',
+       expect={'Q': [(1,), (2,)], 'Q2': [(2,)]}),
   dict(name='missing_file', files={}, main='import no.such.P;\nQ(x) :- P(x);\n', roots='r', error='not found'),
 ]
 
@@ -227,8 +232,39 @@ def cli_graphs(tier):
   return out
 
 
+EMPTY_ENTRY = [
+  # (LOGICAPATH, expected rows of Q): an empty entry of LOGICAPATH is the current directory, in its position
+  (':{cwd}/lib', [('1',)]), ('{cwd}/lib:', [('2',)]), ('{cwd}/lib::{cwd}/other', [('2',)]), ('{cwd}/other:', [('1',)]),
+]
+
+
+def cli_empty_entry(tier):
+  from vlib import cli
+  out = {'name': 'C12-logicapath-empty-entry', 'evaluations': 0, 'distinct_nontrivial': 0, 'violations': [], 'samples': [],
+         'rule': 'logica.py with a LOGICAPATH that has an empty entry (leading / trailing / double colon): the empty entry '
+                 'is the current directory at that position of the root list -- a module present in the current directory '
+                 'and in a later root resolves to the first of them; a module only in the current directory is found'}
+  files = {'prices.l': 'Price(1);\n', 'lib/prices.l': 'Price(2);\n', 'other/unrelated.l': 'U(0);\n'}
+  for lp, want in EMPTY_ENTRY:
+    rc, so, se = cli.run(E + 'import prices.Price;\nQ(x) :- Price(x);\n', 'run_to_csv', 'Q', env={'LOGICAPATH': lp},
+                         extra_files=files)
+    out['evaluations'] += 1
+    out['distinct_nontrivial'] += 1
+    rows = cli.csv_rows(so) if rc == 0 else None
+    if rows != want:
+      out['violations'].append({'key': 'C12-logicapath-empty-entry/%s' % lp,
+                                'replay': {'obligation': 'C12-logicapath-empty-entry/%s' % lp,
+                                           'clause': 'import resolves in the order of the roots, the empty entry being the current directory',
+                                           'solver': 'bounded back end (logica.py in a subprocess)',
+                                           'input': {'LOGICAPATH': lp, 'files': files},
+                                           'native': {'case': {'LOGICAPATH': lp, 'files': files}, 'clause': 'import roots',
+                                                      'detail': 'rows %r (exit %s, %s), expected %r' % (rows, rc, (se or '')[-150:], want)}}})
+  out['samples'].append({'LOGICAPATH': EMPTY_ENTRY[0][0], 'rows': EMPTY_ENTRY[0][1]})
+  return out
+
+
 def run(tier, seed):
-  return [import_graphs(tier), cli_graphs(tier)]
+  return [import_graphs(tier), cli_graphs(tier), cli_empty_entry(tier)]
 
 
 def replay(spec):
